@@ -392,6 +392,7 @@ theorem requestOutcome_ok {g : Cfg} {w w' : World} {c : Nat} {src : HdrSrc} {d :
 inductive Op where
   | newImpl (cp : List Char) (ids : Bool)
   | wrap (c : Nat) (cls : List Char) (ad : Option Adapter)
+  | addAdapter (c : Nat) (ad : Option Adapter)
   | newDict (hs : Headers)
   | req (c : Nat) (src : HdrSrc) (hasData : Bool) (o : Outcome)
   | batch (c : Nat) (threads : List (List ParReq)) (sched : List (Nat × Nat))
@@ -414,6 +415,10 @@ def histStep (g : Cfg) (st : World × IdLog) : Op → World × IdLog
   | .wrap c cls ad =>
     match st.1.wrap g c cls ad with
     | .ok (w', _) => (w', st.2)
+    | .error _ => st
+  | .addAdapter c ad =>
+    match st.1.addAdapter c ad with
+    | .ok w' => (w', st.2)
     | .error _ => st
   | .newDict hs => ((st.1.newDict hs).1, st.2)
   | .req c src d o =>
